@@ -168,6 +168,8 @@ class Index:
         self.enums["@methods"] = methods
         # private attributes are identified by role and renamed to the names the rules use (see core/canon.py)
         from . import canon
+        self.loop_unpacks = canon.fold_loop_unpacking(self)
+        self.attr_aliases = canon.inline_attribute_aliases(self)
         self.param_records = canon.open_parameter_records(self)
         self.kwdicts = canon.expand_kwargs_dicts(self)
         self.matches = canon.desugar_matches(self)
